@@ -704,26 +704,40 @@ package controller
 // own key=value. Stated where the filtered listers are made: the filter handed over IS that function literal,
 // capturing the group's own label key and value (the literals themselves are verified: C14).
 //@ func NewNodeGroupLister(allPodsLister, allNodesLister, nodeGroup) (r)
-//@   ensures r != nil
+//@   ensures r != nil && fresh(r) && r.Pods != nil && r.Nodes != nil
 //@   assert @NewFilteredPodsLister#1 [C12,C14] isclosure(#arg1, "controller.NewPodAffinityFilterFunc$1", nodeGroup.LabelKey, nodeGroup.LabelValue)
 //@   assert @NewFilteredNodesLister#1 [C12,C14] isclosure(#arg1, "controller.NewNodeLabelFilterFunc$1", nodeGroup.LabelKey, nodeGroup.LabelValue)
 //@ func NewDefaultNodeGroupLister(allPodsLister, allNodesLister, nodeGroup) (r)
-//@   ensures r != nil
+//@   ensures r != nil && fresh(r) && r.Pods != nil && r.Nodes != nil
 //@   assert @NewFilteredPodsLister#1 [C12,C14] isclosure(#arg1, "controller.NewPodDefaultFilterFunc$1")
 //@   assert @NewFilteredNodesLister#1 [C12,C14] isclosure(#arg1, "controller.NewNodeLabelFilterFunc$1", nodeGroup.LabelKey, nodeGroup.LabelValue)
 
 // ---------------------------------------------------------------- controller.go: NewController (the invariant is established)
 
-// NewClient starts informers and a goroutine: outside the subset, used through this assumed contract
-// (a lister per configured group, with both halves present).
-//@ assume func NewClient(k8sClient, nodegroups, stopCache) (cl, err)
+// The informer caches (client-go) are started by these two; assumed to hand back a lister or an error.
+//@ assume func k8s.NewCachePodWatcher(client, stop) (l, synced, err)
+//@   ensures err == nil ==> l != nil
+//@ assume func k8s.NewCacheNodeWatcher(client, stop) (l, synced, err)
+//@   ensures err == nil ==> l != nil
+//@ assume func k8s.WaitForSync(tries, stopChan, informers) (ok)
+//@   pure
+// NewClient: one lister pair per configured group, stored under the group's name; the group named "default"
+// - and only that one - gets the default pod filter (C12, C14). The goroutine it starts only waits for the
+// stop signal and closes the informers' stop channels.
+//@ func NewClient(k8sClient, nodegroups, stopCache) (cl, err)
+//@   modifies clock
 //@   ensures err == nil ==> cl != nil && fresh(cl) && cl.Listers != nil && (forall i :: 0 <= i && i < len(nodegroups) ==> has(cl.Listers, nodegroups[i].Name) && cl.Listers[nodegroups[i].Name] != nil && cl.Listers[nodegroups[i].Name].Pods != nil && cl.Listers[nodegroups[i].Name].Nodes != nil)
+//@   assert @NewDefaultNodeGroupLister#1 [C12,C14] #arg2.Name == DefaultNodeGroup
+//@   assert @NewNodeGroupLister#1 [C12,C14] #arg2.Name != DefaultNodeGroup
+//@ loop #0
+//@   modifies mapof(nodegroupMap)
+//@   invariant forall j :: 0 <= j && j < #i ==> has(nodegroupMap, nodegroups[j].Name) && nodegroupMap[nodegroups[j].Name] != nil && nodegroupMap[nodegroups[j].Name].Pods != nil && nodegroupMap[nodegroups[j].Name].Nodes != nil
 // C01/C02/C12/C20 ("after any restart"): a controller that was constructed satisfies the invariant every scan
 // starts from; the configuration handed in is not written (min/max discovery goes into the state's own copy).
 //@ func NewController(opts, stopChan) (c, err)
 //@   requires opts.CloudProviderBuilder != nil && (forall i :: 0 <= i && i < len(opts.NodeGroups) ==> durCacheOK(elemref(opts.NodeGroups, i)))
 //@   requires [C03,C04,C11] forall i, j :: 0 <= i && i < j && j < len(opts.NodeGroups) ==> opts.NodeGroups[i].Name != opts.NodeGroups[j].Name
-//@   modifies nBuildFail
+//@   modifies nBuildFail, clock
 //@   ensures [C11] err == nil ==> c.Opts.DryMode == opts.DryMode && (forall i :: 0 <= i && i < len(opts.NodeGroups) ==> c.nodeGroups[opts.NodeGroups[i].Name].Opts.DryMode == opts.NodeGroups[i].DryMode)
 //@   ensures err == nil ==> c != nil && fresh(c) && ctlInv(c)
 // C03/C04: the configuration itself is never written (auto-discovery is decided from it on every scan), and each
